@@ -91,6 +91,25 @@ def c09_health(op, impl, model):
     return None
 
 
+def emode_dupes(pid):
+    def f(op, impl, model):
+        """adm.emode lInit lMaint maxInitLev maxMaintLev <10 entries x (tag flags init maint)> => ok | err"""
+        if not op.startswith("adm.emode") or not impl.startswith("ok"):
+            return None
+        try:
+            a = [int(x) for x in op.split()[1:]]
+        except ValueError:
+            return None
+        ent = a[4:]
+        tags = [ent[k] for k in range(0, len(ent) - 3, 4) if ent[k] != 0]
+        if len(tags) != len(set(tags)):
+            return (f"{pid} an e-mode configuration with a duplicated collateral tag {sorted(t for t in set(tags) if tags.count(t) > 1)} is ACCEPTED "
+                    f"(the intersection of borrowed banks' configurations counts a tag once per entry, so a doubled tag survives "
+                    f"without being common to all of them and collateral is valued with an e-mode weight it is not entitled to): {op}")
+        return None
+    return f
+
+
 def c16_foc(op, impl, model):
     """acct.foc <16 slots x 5> bank tag now  =>  ok <16 slots x 5: active bank tag a l> <slot bank> <slot tag>"""
     if not op.startswith("acct.foc"):
@@ -113,7 +132,8 @@ def c16_foc(op, impl, model):
 
 
 WITNESS = {
-    "C04": [c04_health],
+    "C04": [c04_health, emode_dupes("C04")],
+    "C13": [emode_dupes("C13")],
     "C05": [c05_health],
     "C07": [c07_health, c07_soc],
     "C09": [c09_health],
